@@ -308,7 +308,12 @@ static void do_ops(char* ops, int in_cb) {
       if ((int) loop.active_reqs.count < cbw_out || (int) loop.active_reqs.count > cbw_out + (qn_null - settled_null))
         printf("!reqs%u,%d,%d ", loop.active_reqs.count, cbw_out, cbw_out + (qn_null - settled_null));
       break; }
-    case 'B': printf("b%d ", uv_backend_timeout(&loop)); break;
+    case 'B': {
+      int bt = uv_backend_timeout(&loop);
+      printf("b%d ", bt);
+      /* descriptor registrations not yet handed to the kernel: an embedder must not sleep on uv_backend_fd() */
+      if (bt != 0 && !uv__queue_empty(&loop.watcher_queue)) printf("!btq%d ", bt);
+      break; }
     case 'R':
       if (!in_cb && sscanf(tok + 1, "%d", &c) == 1 && ++pass_id && printf("g%d,%d ", c, uv_loop_alive(&loop) ? 1 : 0))
         { polls_in_run = 0; cb_since_poll = 0; }
